@@ -30,6 +30,10 @@ FINDING_START_SPACING = 'inline-start-spacing-overflow'
 FINDING_END_SPACING = 'inline-end-spacing-overflow'
 FINDING_END_RESERVED = 'inline-end-spacing-reserved-early'
 FINDING_STALE_WIDTH = 'inline-box-width-stale'
+FINDING_TOP_BOTTOM = 'vertical-align-top-bottom-subtree'
+FINDING_FLOAT_INDENT = 'float-gap-text-indent-later-lines'
+FINDING_FLOAT_BAND = 'float-align-width-not-of-line-box'
+FINDING_SOFT_HYPHEN = 'soft-hyphen-forces-overflowing-line'
 
 
 # ---------------------------------------------------------------------------------------------
@@ -374,6 +378,319 @@ def hyphen_violation(case, impl):
     return None
 
 
+# ----- lines next to floats (rendered)
+
+def gen_float_doc(rng):
+    fs = Fraction(rng.choice([5, 8, 10, 10, 16]))
+    width = Fraction(rng.randint(6, 40)) * fs
+    floats = ''
+    # `band`: a float starts below the font-size but inside the line-height of some line, so that the two
+    # avoid_collisions calls of get_next_linebox (strut height, then font-size height) see different floats
+    band = rng.random() < 0.3
+    if band:
+        width = Fraction(rng.randint(8, 16)) * fs
+    for _ in range(rng.randint(1, 3)):
+        clear = ''
+        if band:
+            # a left float of width 0 and the wanted height, then `clear: left`, puts the next float lower
+            top = (2 * rng.randint(0, 3) + rng.choice([Fraction(5, 4), Fraction(3, 2)])) * fs
+            floats += f'<div style="float:left;width:0;height:{float(top)}px"></div>'
+            clear = 'clear:left;'
+        floats += (f'<div style="float:{rng.choice(["left", "right"])};{clear}'
+                   f'width:{float(Fraction(rng.randint(1, 6 if band else 12)) * fs / 2)}px;'
+                   f'height:{float(Fraction(rng.randint(1, 8)) * fs / 2)}px;margin:{rng.choice([0, 0, 2])}px;'
+                   f'margin-top:{float(rng.choice([0, 0, 1, 3, 5]) * fs / 2)}px"></div>')
+    ws, wb, ow = gen_keywords(rng)
+    spec = {'text': gen_paragraph(rng, ws, max_words=25, edges=True), 'ws': ws, 'wb': wb, 'ow': ow, 'fs': fs,
+            'width': width, 'lh': rng.choice(['normal', ('px', fs * 2), ('num', Fraction(3, 2))]),
+            'indent': Fraction(rng.choice([0, 0, 0, 10, -5])), 'all': rng.choice(ALIGN_ALL),
+            'last': rng.choice(ALIGN_LAST), 'rtl': False, 'ml': Fraction(0)}
+    if band:
+        spec.update(lh=('px', fs * 2), indent=Fraction(0), all=rng.choice(['right', 'center', 'end', 'justify']))
+    lh = spec['lh']
+    lh_css = 'normal' if lh == 'normal' else (f'{float(lh[1])}px' if lh[0] == 'px' else f'{float(lh[1])}')
+    css = (f'white-space:{ws};word-break:{wb};overflow-wrap:{ow};line-height:{lh_css};'
+           f'text-indent:{float(spec["indent"])}px;text-align-all:{spec["all"]};text-align-last:{spec["last"]}')
+    html = (f'<div style="width:{float(width)}px;font-size:{float(fs)}px">{floats}'
+            f'<p style="{css}">{html_escape(spec["text"])}</p></div>')
+    return spec, html
+
+
+def render_float_doc(spec, html):
+    """-> (protocol line, impl, shapes, block geometry) | None when the paragraph is not a single text box."""
+    from weasyprint.formatting_structure import boxes
+    try:
+        before, pages = ic.pipeline(f'<style>{PAGE_CSS}</style>' + html)
+    except Exception as exc:  # noqa: BLE001
+        return 'fpara-layout-failed', f'err:{type(exc).__name__}', [], None
+    if len(before) != 1 or len(before[0]) != 1:
+        return None
+    shapes = [[Fraction(b.position_x), Fraction(b.position_y), Fraction(b.margin_width()), Fraction(b.margin_height()),
+               b.style['float']]
+              for page in pages for b in page.descendants() if isinstance(b, boxes.BlockBox) and b.is_floated()]
+    (block, lines), = ic.laid_out_paragraphs(pages)
+    canon, _ = real_lines(lines)
+    if canon is None:
+        return None
+    geometry = (Fraction(block.content_box_x()), Fraction(block.content_box_y()), Fraction(block.width))
+    proto = sx.line('fpara', shapes, enc(before[0][0]), spec['ws'], spec['wb'], spec['ow'], spec['fs'],
+                    used_line_height(spec), geometry[0], geometry[2], spec['indent'], spec['all'], spec['last'],
+                    geometry[1])
+    return proto, sx.dumps(canon), shapes, geometry
+
+
+def unexplained(violation, model_violation):
+    """A violation of a known-finding class is excused only when the model of the unchanged code shows a violation of
+    the same class on the same input; otherwise the finding does not explain it. -> what | None"""
+    if not violation:
+        return None
+    if violation[1] is None:
+        return violation[0]
+    try:
+        same = model_violation()
+    except Exception:  # noqa: BLE001  (the model output is an error outcome)
+        same = None
+    if same and same[1] == violation[1]:
+        return None
+    return (f'{violation[0]} (not explained by known finding {violation[1]}: the model of the unchanged code does not '
+            f'show it on this input)')
+
+
+def float_violation(shapes, geometry, canon, ws='normal', indent=0, align=('start', 'auto')):
+    """Lines lie in the width left between the floats: a line never overlaps a float that is beside it, unless it is
+    wider than the whole block (an unbreakable unit with no free place below). -> (what, finding_id) | None
+    With a `text-indent` the unchanged code violates this on the lines after the first (known finding
+    float-gap-text-indent-later-lines); a float that starts below the font-size band of a line but inside its
+    line-height is not seen when the line is aligned, nor is the removal of the trailing space (known finding
+    float-align-width-not-of-line-box: judged a violation only where the model of the unchanged code does not
+    show the same, see `unexplained`)."""
+    if isinstance(canon, str):
+        return f'layout raised {canon[4:]}', None
+    cbx, _, width = geometry
+    if ws not in COLLAPSE:
+        return None             # preserved spaces at the end of a line hang: they are part of the line width
+    finding = FINDING_FLOAT_INDENT if Fraction(indent) != 0 else None
+    moved_by_align = not (align[0] in ('start', 'left') and align[1] in ('auto', 'start', 'left'))
+    for i, (lx, ly, lw, lh, child) in enumerate(canon):
+        lx, ly, lw, lh = Fraction(lx), Fraction(ly), Fraction(lw), Fraction(lh)
+        if child == 'none' or lw == 0 or lw > width:
+            continue
+        # a line moved or stretched by text-align got its offset from the second avoid_collisions of
+        # get_next_linebox, made with a box that is not the final line box
+        line_finding = finding or (FINDING_FLOAT_BAND if moved_by_align else None)
+        for sx_, sy, smw, smh, side in shapes:
+            beside = sy < ly + lh and ly < sy + smh
+            if beside and lx < sx_ + smw and sx_ < lx + lw:
+                return (f'line {i} spans x=[{float(lx)}, {float(lx + lw)}] at y=[{float(ly)}, {float(ly + lh)}] and '
+                        f'overlaps the {side} float [{float(sx_)}, {float(sx_ + smw)}] x [{float(sy)}, '
+                        f'{float(sy + smh)}]'), line_finding
+        if lx < cbx or lx + lw > cbx + width:
+            return (f'line {i} [{float(lx)}, {float(lx + lw)}] lies outside the block '
+                    f'[{float(cbx)}, {float(cbx + width)}]'), line_finding
+    return None
+
+
+def gen_skip(rng, nodes):
+    """A valid skip_stack into a list of model nodes: (python dict | None, wire)."""
+    if not nodes or rng.random() < 0.35:
+        return None, 'none'
+    index = rng.randrange(len(nodes))
+    node = nodes[index]
+    if node[0] == 't':
+        offset = rng.randint(0, len(dec(node[1])))
+        return {index: {offset: None}}, [index, [offset, 'none']]
+    sub, wire = gen_skip(rng, node[4])
+    return {index: sub}, [index, wire]
+
+
+def gen_preferred_html(rng):
+    ws, wb, ow = gen_keywords(rng)
+    fs = Fraction(rng.choice([5, 8, 10, 10, 16]))
+    items = gen_inline_items(rng, rng.randint(1, 9), 2, fs, safe=False)
+    attach_inline_spaces(items, rng, safe=False)
+    r = rng.random()
+    leaves = list(inline_leaves(items))
+    if r < 0.2:
+        leaves[-1][2] += ' '
+    elif r < 0.3:
+        leaves[0][2] = ' ' + leaves[0][2]
+    indent = Fraction(rng.choice([0, 0, 0, 10, 25, -5]))
+    css = (f'white-space:{ws};word-break:{wb};overflow-wrap:{ow};font-size:{float(fs)}px;'
+           f'text-indent:{float(indent)}px')
+    return f'<p style="{css}">{inline_html(items)}</p>', (ws, wb, ow, fs, indent)
+
+
+# ----- vertical placement inside a line (rendered)
+
+VERTICAL_FS = [5, 8, 10, 16, 20]
+VERTICAL_ALIGN = ['baseline', 'middle', 'text-top', 'text-bottom', 'top', 'bottom', 'sub', 'super', '4px', '-3px',
+                  '50%', '-25%']
+
+
+def gen_vertical_body(rng, depth):
+    out = ''
+    for _ in range(rng.randint(1, 3)):
+        if depth > 0 and rng.random() < 0.6:
+            css = []
+            if rng.random() < 0.6:
+                css.append(f'font-size:{rng.choice(VERTICAL_FS)}px')
+            r = rng.random()
+            if r < 0.3:
+                css.append(f'line-height:{rng.choice([0, 4, 10, 15, 30])}px')
+            elif r < 0.5:
+                css.append(f'line-height:{rng.choice([0.5, 1, 1.5, 2])}')
+            elif r < 0.55:
+                css.append('line-height:normal')
+            if rng.random() < 0.7:
+                css.append('vertical-align:' + rng.choice(VERTICAL_ALIGN))
+            if rng.random() < 0.3:
+                css.append(f'padding-top:{rng.choice([1, 2, 5])}px')
+            if rng.random() < 0.3:
+                css.append(f'padding-bottom:{rng.choice([1, 2, 5])}px')
+            if rng.random() < 0.2:
+                css.append(f'border-top:{rng.choice([1, 2, 4])}px solid')
+            if rng.random() < 0.2:
+                css.append(f'border-bottom:{rng.choice([1, 2, 4])}px solid')
+            out += f'<span style="{";".join(css)}">{gen_vertical_body(rng, depth - 1)}</span> '
+        else:
+            out += rng.choice(['aa', 'b', 'ccc']) + ' '
+    return out
+
+
+def gen_vertical_html(rng):
+    css = (f'font-size:{rng.choice(VERTICAL_FS)}px;line-height:{rng.choice(["normal", "normal", "12px", "1.5", "0"])};'
+           f'width:{rng.choice([60, 150, 2000])}px')
+    return f'<p style="{css}">{gen_vertical_body(rng, 3)}</p>'
+
+
+def render_vertical_lines(paragraphs):
+    """-> per line box made of text and inline boxes only: (paragraph html, line index, protocol line, impl)."""
+    from weasyprint.formatting_structure import boxes
+    try:
+        document = docs.render(f'<style>{PAGE_CSS}</style>' + ''.join(paragraphs))
+    except Exception as exc:  # noqa: BLE001
+        if len(paragraphs) == 1:
+            # no laid-out tree to give to the model: an unknown command, so that the outcome is a disagreement
+            return [(paragraphs[0], 0, 'vline-layout-failed', f'err:{type(exc).__name__}')]
+        return [entry for html in paragraphs for entry in render_vertical_lines([html])]
+    blocks = [box for page in document.pages for box in page._page_box.descendants()
+              if isinstance(box, boxes.BlockBox) and box.element_tag == 'p']
+    out = []
+    for html, block in zip(paragraphs, blocks):
+        for index, line in enumerate(c for c in block.children if isinstance(c, boxes.LineBox)):
+            inside = [d for d in line.descendants() if d is not line]
+            if not all(isinstance(d, (boxes.TextBox, boxes.InlineBox)) for d in inside):
+                continue
+            proto = sx.line('vline', ic.vstyle_wire(line, True), [ic.vnode_wire(c) for c in line.children],
+                            Fraction(line.position_y))
+            impl = sx.dumps([snap(line.position_y), snap(line.height), snap(line.baseline),
+                             [ic.vbox_wire(c, snap) for c in line.children]])
+            out.append((html, index, proto, impl))
+    return out
+
+
+def vertical_safe(nodes):
+    """No `vertical-align: top | bottom` inline box holds another inline box (finding
+    vertical-align-top-bottom-subtree: their descendants are translated wrongly)."""
+    for node in nodes:
+        if node[0] == 'b':
+            va = node[1][2]
+            if va in ('top', 'bottom') and any(k[0] == 'b' for k in node[2]):
+                return False
+            if not vertical_safe(node[2]):
+                return False
+    return True
+
+
+def vertical_violation(style, nodes, impl):
+    """Clauses on one laid-out line: every box is one line-height high (margin box), the line is at least as high
+    as the block's line-height, and every box lies inside the line box (so consecutive lines cannot overlap).
+    -> (what, finding_id) | None"""
+    if impl.startswith('err:'):
+        return f'line_box_verticality raised {impl[4:]}', None
+    ly, lh, lbase, boxes_ = sx.loads_line(impl)[0]
+    ly, lh = Fraction(ly), Fraction(lh)
+    tol = Fraction(1, 2 ** 19)
+
+    def used_line_height(st):
+        fs, line_height, th = Fraction(st[0]), st[1], Fraction(st[7])
+        if fs == 0:
+            return Fraction(0)
+        if line_height == 'normal':
+            return th
+        return Fraction(line_height[1]) if line_height[0] == 'px' else Fraction(line_height[1]) * fs
+
+    if lh + tol < used_line_height(style):
+        return f'the line is {float(lh)} high, less than the line-height {float(used_line_height(style))} of its block', None
+
+    safe = vertical_safe(nodes)
+
+    def strut(st):
+        """(used line-height, baseline) of strut_layout."""
+        fs, th, tb = Fraction(st[0]), Fraction(st[7]), Fraction(st[8])
+        lh_ = used_line_height(st)
+        if fs == 0:
+            return Fraction(0), Fraction(0)
+        return lh_, tb + (lh_ - th) / 2
+
+    def aligned(node, box, parent_baseline, parent_content_top, parent_st):
+        """vertical-align of CSS 2.1 10.8.1, relative to the parent box"""
+        st = node[1]
+        y, h, mt, mb, base = (Fraction(v) for v in box[1:6])
+        mh = h + mt + mb + sum(Fraction(v) for v in st[3:7])
+        va = st[2]
+        pfs, pex = Fraction(parent_st[0]), Fraction(parent_st[9])
+        if va == 'baseline':
+            got, want, what = y + base, parent_baseline, 'its baseline on the parent baseline'
+        elif va == 'middle':
+            got, want, what = y + mh / 2, parent_baseline - pfs * pex / 2, 'its middle half an ex above the parent baseline'
+        elif va == 'text-top':
+            got, want, what = y, parent_content_top, "its top at the top of the parent's content area"
+        elif va == 'text-bottom':
+            got, want, what = y + mh, parent_content_top + pfs, "its bottom at the bottom of the parent's content area"
+        elif va == 'top':
+            got, want, what = y, ly, 'its top at the top of the line box'
+        elif va == 'bottom':
+            got, want, what = y + mh, ly + lh, 'its bottom at the bottom of the line box'
+        else:
+            got, want, what = y + base, parent_baseline - Fraction(va[1]), f'its baseline {float(Fraction(va[1]))}px above the parent baseline'
+        if abs(got - want) > tol:
+            return f'vertical-align {va if isinstance(va, str) else "length"} puts {what}: expected {float(want)}, got {float(got)}'
+        return None
+
+    def walk(node, box, parent_baseline, parent_content_top, parent_st, inside_tb):
+        st = node[1]
+        y, h, mt, mb = (Fraction(v) for v in box[1:5])
+        if safe and not (inside_tb and st[2] in ('top', 'bottom')):
+            what = aligned(node, box, parent_baseline, parent_content_top, parent_st)
+            if what:
+                return what, None
+        edges = sum(Fraction(v) for v in st[3:7])
+        margin_height = h + mt + mb + edges
+        if abs(margin_height - used_line_height(st)) > tol:
+            return f'a box is {float(margin_height)} high (margin box), its line-height is {float(used_line_height(st))}', None
+        if y + tol < ly or y + margin_height > ly + lh + tol:
+            finding = None if vertical_safe(nodes) else FINDING_TOP_BOTTOM
+            return (f'a box spans y=[{float(y)}, {float(y + margin_height)}], outside its line box '
+                    f'[{float(ly)}, {float(ly + lh)}]: it overlaps the neighbouring line'), finding
+        if node[0] == 'b':
+            base = Fraction(box[5])
+            content_top = y + mt + Fraction(st[3]) + Fraction(st[4])
+            for kid, kbox in zip(node[2], box[6]):
+                r = walk(kid, kbox, y + base, content_top, st, inside_tb or st[2] in ('top', 'bottom'))
+                if r:
+                    return r
+        return None
+    line_lh, line_strut_base = strut(style)
+    line_baseline = ly + Fraction(lbase)
+    line_content_top = line_baseline - line_strut_base + (line_lh - Fraction(style[0])) / 2
+    for node, box in zip(nodes, boxes_):
+        r = walk(node, box, line_baseline, line_content_top, style, False)
+        if r:
+            return r
+    return None
+
+
 # ----- nested inline boxes (rendered)
 
 def gen_inline_items(rng, n, depth, unit, safe):
@@ -472,7 +789,13 @@ def inline_para_html(spec):
 def render_inline_paragraphs(specs):
     """-> list of (spec, node wire | None, block, canonical lines)."""
     html = f'<style>{PAGE_CSS}</style>' + ''.join(inline_para_html(s) for s in specs)
-    before, pages = ic.pipeline_trees(html, enc)
+    try:
+        before, pages = ic.pipeline_trees(html, enc)
+    except Exception as exc:  # noqa: BLE001
+        if len(specs) == 1:
+            before, _ = ic.pipeline_trees(html, enc, layout=False)
+            return [(specs[0], before[0] if before else None, FailedBlock(specs[0]), f'err:{type(exc).__name__}')]
+        return [entry for spec in specs for entry in render_inline_paragraphs([spec])]
     laid = ic.laid_out_paragraphs(pages)
     if len(before) != len(specs) or len(laid) != len(specs):
         raise RuntimeError(f'paragraph count: {len(specs)} specs, {len(before)} before, {len(laid)} after layout')
@@ -553,6 +876,8 @@ def closing_spacing(frags):
 def inline_violation(nodes, width, canon):
     """Clauses of C09 on the lines of a paragraph of nested inline boxes. -> (what, finding_id) | None"""
     width = Fraction(width)
+    if isinstance(canon, str):
+        return f'layout raised {canon[4:]}', None
     y = None
     for i, (lx, ly, lw, lh, frags) in enumerate(canon):
         lx, ly, lw, lh = Fraction(lx), Fraction(ly), Fraction(lw), Fraction(lh)
@@ -584,6 +909,14 @@ def inline_violation(nodes, width, canon):
             return (f'line {i} {text!r} is {float(lw)} wide, the block is {float(width)} wide, and the line could '
                     f'break at a space'), None
     return None
+
+
+def vertical_aligns(nodes):
+    for node in nodes:
+        va = node[1][2]
+        yield va if isinstance(va, str) else 'length'
+        if node[0] == 'b':
+            yield from vertical_aligns(node[2])
 
 
 def frag_text_node(node):
@@ -769,10 +1102,33 @@ def para_line(spec, text, cbx, y, width):
                    Fraction(cbx), Fraction(width), spec['indent'], spec['all'], spec['last'], spec['rtl'], Fraction(y))
 
 
+class FailedBlock:
+    """Stands for the block of a paragraph whose layout raised: alone in its document, at the top."""
+
+    def __init__(self, spec):
+        self._x, self.width = spec['ml'], spec['width']
+
+    def content_box_x(self):
+        return self._x
+
+    def content_box_y(self):
+        return Fraction(0)
+
+
 def render_paragraphs(specs):
-    """-> list of (spec, text before layout | None, block, canonical lines | None, float-rounded count)."""
+    """-> list of (spec, text before layout | None, block, canonical lines | None | 'err:…', float-rounded count).
+    When the layout of the batch raises, every paragraph is rendered alone; the one that raises is reported with
+    the exception as its outcome."""
     html = f'<style>{PAGE_CSS}</style>' + ''.join(para_html(s) for s in specs)
-    before, pages = ic.pipeline(html)
+    try:
+        before, pages = ic.pipeline(html)
+    except Exception as exc:  # noqa: BLE001
+        if len(specs) == 1:
+            before, _ = ic.pipeline(html, layout=False)
+            texts = before[0] if before else []
+            text = texts[0] if len(texts) == 1 else (None if texts else '')
+            return [(specs[0], text, FailedBlock(specs[0]), f'err:{type(exc).__name__}', 0)]
+        return [entry for spec in specs for entry in render_paragraphs([spec])]
     laid = ic.laid_out_paragraphs(pages)
     if len(before) != len(specs) or len(laid) != len(specs):
         raise RuntimeError(f'paragraph count: {len(specs)} specs, {len(before)} before, {len(laid)} after layout')
@@ -929,6 +1285,8 @@ def para_violation(spec, text, cbx, y0, width, canon):
     fs = spec['fs']
     lh = used_line_height(spec)
     cbx, width = Fraction(cbx), Fraction(width)
+    if isinstance(canon, str):
+        return f'layout raised {canon[4:]}', None
     if canon is None:
         return 'line box children are not a single text box', None
     texts = [dec(c[0]) if c != 'none' else '' for *_, c in canon]
@@ -1066,11 +1424,19 @@ class C09(PropCheck):
         'texts are ASCII letters, U+0020, U+000A (byte offsets = character offsets); fixed-pitch test font '
         '(advance = font-size, line height = font-size); font sizes multiples of 1/4 px',
         'float comparisons of the implementation agree with the rational ones on dyadic inputs (incl. max_x *= 1 + 1e-9)',
+        'modelled, not verified (round 2): strut_layout, the half-leading assignments of split_text_box / '
+        'split_inline_box, line_box_verticality / aligned_subtree_verticality / inline_box_verticality / '
+        'translate_subtree (Model/LineVertical; Pango text height, baseline and the ex ratio of character_ratio are '
+        'inputs read from the real layout, results compared after snapping to 2^-20 px); inline_line_widths / '
+        'inline_min_content_width / inline_max_content_width / trailing_whitespace_size / adjust for text and inline '
+        'boxes with px spacing (Model/InlinePreferred); get_next_linebox with excluded shapes for a line box holding one '
+        'text box, ltr (Model/LineFloats, on C11\'s avoid_collisions model imported unchanged)',
     )
     assumptions = (
         'no soft hyphen in the texts; dictionary hyphenation only in the hyphenation section (lang=en)',
-        'document level: text boxes and nested inline boxes, no float, vertical-align baseline; boundaries between '
-        'boxes are at spaces',
+        'document level: text boxes and nested inline boxes, vertical-align of every kind in the line-vertical '
+        'section only, floats only before a paragraph of one text box (float-lines section), no float inside a line; '
+        'boundaries between boxes are at spaces',
     )
 
     # ----- correspondence
@@ -1086,6 +1452,9 @@ class C09(PropCheck):
         self._sec_para(run)
         self._sec_inline(run)
         self._sec_hyphen(run)
+        self._sec_vertical(run)
+        self._sec_preferred(run)
+        self._sec_floats(run)
 
     def _sec_pango(self, run):
         sec = run.section(
@@ -1115,12 +1484,15 @@ class C09(PropCheck):
                     tags=['char' if wrap_char else 'word', 'adversarial' if adversarial else 'paragraph'])
 
     def _sec_sfl(self, run):
+        from vlib import lean
         sec = run.section(
             'split-first-line',
             'real split_first_line (real Pango, test font) vs model on (length, resume_index, width, layout.text): '
             'paragraphs of 1..400 words of 1..30 letters, widths 0..60em, font sizes 1..40, every white-space / '
-            'word-break / overflow-wrap, plus an adversarial stream; non-trivial = a line break is produced')
+            'word-break / overflow-wrap, plus an adversarial stream; non-trivial = a line break is produced; the '
+            'branch histogram is measured by the model (Model/LineBreakTrace)')
         rng = run.rng
+        cases = []
         for i in range(run.n(18000, 400000)):
             adversarial = rng.random() < 0.3
             ws, wb, ow = gen_keywords(rng)
@@ -1143,8 +1515,19 @@ class C09(PropCheck):
                 tags.append('char-breaking-allowed')
             if impl.startswith('err:'):
                 tags.append(impl)
-            sec.add(sx.line('sfl', True, enc(text), ws, wb, ow, fs, wire_width(width), ils, minimum), impl,
-                    meta=meta, nontrivial=broke, tags=tags)
+            args = (enc(text), ws, wb, ow, fs, wire_width(width), ils, minimum)
+            cases.append((args, impl, meta, broke, tags))
+        # which branches of the model each call takes (measurement only)
+        seen = set()
+        for start in range(0, len(cases), 20000):
+            chunk = cases[start:start + 20000]
+            branches = lean.run_driver(self.driver, [sx.line('sfl-branches', *c[0]) for c in chunk])
+            for (args, impl, meta, broke, tags), line in zip(chunk, branches):
+                names = line.split()
+                seen.update(names)
+                sec.add(sx.line('sfl', True, *args), impl, meta=meta, nontrivial=broke, tags=tags + names)
+        every = lean.run_driver(self.driver, ['sfl-all-branches'])[0].split()
+        run.extra['split_first_line_branches_never_hit'] = [b for b in every if b not in seen]
 
     def _sec_stb(self, run):
         sec = run.section(
@@ -1253,18 +1636,115 @@ class C09(PropCheck):
                 if text is None or canon is None:
                     skipped += 1
                     continue
-                impl = sx.dumps(canon)
+                impl = canon if isinstance(canon, str) else sx.dumps(canon)
                 cbx, y0, width = block.content_box_x(), block.content_box_y(), block.width
                 align = spec['all']
-                tags = [spec['ws'], f'align-{align}', 'rtl' if spec['rtl'] else 'ltr', f'lines{min(len(canon), 6)}']
+                tags = [spec['ws'], f'align-{align}', 'rtl' if spec['rtl'] else 'ltr',
+                        impl if isinstance(canon, str) else f'lines{min(len(canon), 6)}']
                 if spec['indent']:
                     tags.append('indent')
                 sec.add(para_line(spec, text, cbx, y0, width), impl,
                         meta={'spec': spec_json(spec), 'text': text, 'cbx': str(Fraction(cbx)), 'y': str(Fraction(y0)),
                               'width': str(Fraction(width)), 'html': para_html(spec)},
-                        nontrivial=len(canon) >= 2, tags=tags)
+                        nontrivial=not isinstance(canon, str) and len(canon) >= 2, tags=tags)
         run.extra['float_rounding'] = rounding
         run.extra['paragraphs_skipped'] = skipped
+
+    def _sec_floats(self, run):
+        sec = run.section(
+            'float-lines',
+            'rendered paragraphs after 1-3 left / right floats: per line x, y, width, height, text vs the model of '
+            'get_next_linebox with excluded shapes (min-content width of the first line, avoid_collisions twice, '
+            'text_align in the width left); non-trivial = some line is beside a float')
+        rng = run.rng
+        for _ in range(run.n(300, 5000)):
+            spec, html = gen_float_doc(rng)
+            rendered = render_float_doc(spec, html)
+            if rendered is None:
+                continue
+            proto, impl, shapes, geometry = rendered
+            beside, tags = False, []
+            if geometry is not None:
+                bottom = None
+                for lx, ly, lw, lh, child in canon_from_wire(impl):
+                    lx, ly, lw, lh = Fraction(lx), Fraction(ly), Fraction(lw), Fraction(lh)
+                    next_to = [s for s in shapes if s[1] < ly + lh and ly < s[1] + s[3]]
+                    beside = beside or bool(next_to)
+                    if bottom is not None and ly > bottom:
+                        tags.append('line-moved-down')
+                    if child == 'none':
+                        tags.append('phantom-line' if lh == 0 else 'empty-line')
+                    elif next_to and lx > geometry[0]:
+                        tags.append('starts-after-left-float')
+                    if next_to and lw > geometry[2] - sum(s[2] for s in next_to):
+                        tags.append('wider-than-gap')
+                    bottom = ly + lh
+            else:
+                tags.append('layout-error')
+            if spec['indent'] != 0:
+                tags.append('text-indent')
+            sec.add(proto, impl, meta={'html': html, 'float': True, 'spec': spec_json(spec)}, nontrivial=beside,
+                    tags=[spec['ws'], f'floats{len(shapes)}', 'beside' if beside else 'below'] + sorted(set(tags)))
+        expected = ['beside', 'below', 'line-moved-down', 'empty-line', 'phantom-line', 'starts-after-left-float',
+                    'wider-than-gap', 'text-indent', 'layout-error']
+        run.extra['float_lines_cases_never_hit'] = [t for t in expected if not sec.tags.get(t)]
+
+    def _sec_preferred(self, run):
+        from weasyprint.layout.preferred import (
+            inline_max_content_width, inline_min_content_width, trailing_whitespace_size)
+        sec = run.section(
+            'preferred-widths',
+            'real inline_min_content_width (outer, skip_stack, first_line, is_line_start) / inline_max_content_width / '
+            'trailing_whitespace_size on the real line boxes of built (not laid out) paragraphs of text and nested '
+            'spans, every white-space / word-break / overflow-wrap, text-indent; non-trivial = more than one word')
+        rng = run.rng
+        for _ in range(run.n(60, 900)):
+            batch = [gen_preferred_html(rng) for _ in range(10)]
+            context, lines = ic.pipeline_lineboxes(f'<style>{PAGE_CSS}</style>' + ''.join(h for h, _ in batch), enc)
+            for (html, (ws, wb, ow, fs, indent)), (line, nodes) in zip(batch, lines):
+                if line is None:
+                    continue
+                words = len(''.join(frag_text_node(sx.loads_line(sx.dumps(nodes))[0][i]) for i in range(len(nodes))).split())
+                style_args = (ws, wb, ow, fs)
+                for _ in range(3):
+                    outer, first_line, ils = rng.random() < 0.7, rng.random() < 0.4, rng.random() < 0.5
+                    skip, skip_wire = gen_skip(rng, sx.loads_line(sx.dumps(nodes))[0])
+                    impl = docs.outcome(lambda: sx.dumps(Fraction(inline_min_content_width(
+                        context, line, outer, skip, first_line, ils))))
+                    sec.add(sx.line('pmin', nodes, *style_args, indent, outer, first_line, ils, skip_wire), impl,
+                            meta={'html': html, 'call': 'min', 'outer': outer, 'first_line': first_line, 'ils': ils,
+                                  'skip': str(skip)},
+                            nontrivial=words > 1, tags=['min', ws, 'first-line' if first_line else 'all-lines',
+                                                        'skip' if skip else 'start'])
+                outer, ils = rng.random() < 0.7, rng.random() < 0.5
+                impl = docs.outcome(lambda: sx.dumps(Fraction(inline_max_content_width(context, line, outer, ils))))
+                sec.add(sx.line('pmax', nodes, *style_args, indent, outer, ils), impl,
+                        meta={'html': html, 'call': 'max', 'outer': outer, 'ils': ils}, nontrivial=words > 1,
+                        tags=['max', ws])
+                impl = docs.outcome(lambda: sx.dumps(Fraction(trailing_whitespace_size(context, line))))
+                sec.add(sx.line('ptws', nodes, *style_args), impl, meta={'html': html, 'call': 'tws'},
+                        nontrivial=impl != '0', tags=['trailing-whitespace', ws])
+
+    def _sec_vertical(self, run):
+        sec = run.section(
+            'line-vertical',
+            'rendered lines of nested spans with every font-size / line-height / vertical-align (keywords, lengths, '
+            'percentages, sub, super) / vertical padding and border: position_y, height, margins, baseline of every '
+            'box and of the line vs the model of strut_layout / line_box_verticality / inline_box_verticality / '
+            'translate_subtree; non-trivial = at least one inline box')
+        rng = run.rng
+        for _ in range(run.n(50, 900)):
+            paragraphs = [gen_vertical_html(rng) for _ in range(8)]
+            for html, index, proto, impl in render_vertical_lines(paragraphs):
+                if impl.startswith('err:'):
+                    sec.add(proto, impl, meta={'html': html, 'line': index, 'vertical': True}, tags=[impl])
+                    continue
+                parsed = sx.loads_line(proto)
+                nodes = parsed[2]
+                aligns = sorted({a for a in vertical_aligns(nodes)})
+                sec.add(proto, impl, meta={'html': html, 'line': index, 'vertical': True},
+                        nontrivial=any(n[0] == 'b' for n in nodes),
+                        tags=[f'va-{a}' for a in aligns] + ['safe' if vertical_safe(nodes) else 'top-bottom-nested'])
 
     def _sec_hyphen(self, run):
         sec = run.section(
@@ -1307,11 +1787,12 @@ class C09(PropCheck):
                     skipped += 1
                     continue
                 cbx, y0, width = block.content_box_x(), block.content_box_y(), block.width
-                sec.add(inline_line(spec, nodes, cbx, y0, width), sx.dumps(canon),
+                failed = isinstance(canon, str)
+                sec.add(inline_line(spec, nodes, cbx, y0, width), canon if failed else sx.dumps(canon),
                         meta={'nodes': sx.dumps(nodes), 'width': str(Fraction(width)), 'html': inline_para_html(spec),
                               'inline': True},
-                        nontrivial=len(canon) >= 2,
-                        tags=['safe' if nodes_safe(nodes) else 'general', f'lines{min(len(canon), 6)}',
+                        nontrivial=not failed and len(canon) >= 2,
+                        tags=['safe' if nodes_safe(nodes) else 'general', canon if failed else f'lines{min(len(canon), 6)}',
                               f'align-{spec["all"]}'])
         run.extra['inline_paragraphs_skipped'] = skipped
 
@@ -1328,6 +1809,21 @@ class C09(PropCheck):
             return None
         if d['section'] == 'text-align':
             return align_violation(spec_unjson(meta['spec']), d['impl'])
+        if d['section'] == 'float-lines':
+            if d['impl'].startswith('err:'):
+                return f'layout raised {d["impl"][4:]} on {meta.get("html")}'
+            parsed = sx.loads_line(d['line'])
+            shapes = [[Fraction(a), Fraction(b), Fraction(c), Fraction(e), side] for a, b, c, e, side in parsed[1]]
+            geometry = (Fraction(parsed[8]), Fraction(parsed[13]), Fraction(parsed[9]))
+            v = float_violation(shapes, geometry, canon_from_wire(d['impl']), parsed[3], parsed[10], parsed[11:13])
+            return unexplained(v, lambda: float_violation(shapes, geometry, canon_from_wire(d['model']), parsed[3],
+                                                          parsed[10], parsed[11:13]))
+        if d['section'] == 'line-vertical':
+            if d['impl'].startswith('err:'):
+                return f'layout raised {d["impl"][4:]} on {meta.get("html")}'
+            parsed = sx.loads_line(d['line'])
+            v = vertical_violation(parsed[1], parsed[2], d['impl'])
+            return unexplained(v, lambda: vertical_violation(parsed[1], parsed[2], d['model']))
         if d['section'] == 'hyphenation':
             what = hyphen_violation(hyphen_unjson(meta['hyphen']), d['impl'])
             if what:
@@ -1415,7 +1911,8 @@ class C09(PropCheck):
                 run.search_stats['evaluations'] += 1
                 if nodes is None:
                     continue
-                canon = sx.loads_line(sx.dumps(canon))[0]
+                if not isinstance(canon, str):
+                    canon = sx.loads_line(sx.dumps(canon))[0]
                 v = inline_violation(sx.loads_line(sx.dumps(nodes))[0], Fraction(block.width), canon)
                 if v:
                     out.append({'what': v[0], 'finding_id': v[1],
@@ -1451,10 +1948,16 @@ class C09(PropCheck):
         found.sort(key=lambda v: (v.get('finding_id') is not None, len(str(v['input']))))
         return found[:6]
 
+    def model_output(self, proto):
+        from vlib import lean
+        return lean.run_driver(self.driver, [proto])[0]
+
     def finding_replays(self):
         return {FINDING_HYPHEN: finding_break_all_hyphen, FINDING_NEGW: finding_negative_width,
                 FINDING_START_SPACING: finding_start_spacing, FINDING_END_SPACING: finding_end_spacing,
-                FINDING_END_RESERVED: finding_end_reserved, FINDING_STALE_WIDTH: finding_stale_width}
+                FINDING_END_RESERVED: finding_end_reserved, FINDING_STALE_WIDTH: finding_stale_width,
+                FINDING_TOP_BOTTOM: finding_top_bottom, FINDING_FLOAT_INDENT: finding_float_indent,
+                FINDING_SOFT_HYPHEN: finding_soft_hyphen, FINDING_FLOAT_BAND: finding_float_band}
 
     def replay(self, data):
         inp = data.get('input', {})
@@ -1468,6 +1971,26 @@ class C09(PropCheck):
             return v[0] if v else None
         meta = inp.get('meta') or {}
         section = inp.get('section')
+        if meta.get('float'):
+            rendered = render_float_doc(spec_unjson(meta['spec']), meta['html'])
+            if rendered is None:
+                return None
+            proto, impl, shapes, geometry = rendered
+            v = float_violation(shapes, geometry, impl if impl.startswith('err:') else canon_from_wire(impl),
+                                meta['spec']['ws'], meta['spec']['indent'], (meta['spec']['all'], meta['spec']['last']))
+            return unexplained(v, lambda: float_violation(
+                shapes, geometry, canon_from_wire(self.model_output(proto)), meta['spec']['ws'],
+                meta['spec']['indent'], (meta['spec']['all'], meta['spec']['last'])))
+        if meta.get('vertical') or inp.get('vertical'):
+            source = meta if meta.get('vertical') else inp
+            for html, index, proto, impl in render_vertical_lines([source['html']]):
+                if index == source.get('line', index):
+                    parsed = sx.loads_line(proto)
+                    v = vertical_violation(parsed[1], parsed[2], impl)
+                    what = unexplained(v, lambda: vertical_violation(parsed[1], parsed[2], self.model_output(proto)))
+                    if what:
+                        return what
+            return None
         if 'hyphen' in meta:
             for prior in meta.get('priors', []):
                 real_sfl_hyphen(hyphen_unjson(prior))
@@ -1503,7 +2026,7 @@ def finding_break_all_hyphen():
             'width': Fraction(25), 'lh': 'normal', 'indent': Fraction(0), 'all': 'start', 'last': 'auto',
             'rtl': False, 'ml': Fraction(0)}
     (_, text, block, canon, _), = render_paragraphs([spec])
-    return canon is not None and len(canon) > 0 and canon[0][4] != 'none' and dec(canon[0][4][0]) == 'a'
+    return isinstance(canon, list) and len(canon) > 0 and canon[0][4] != 'none' and dec(canon[0][4][0]) == 'a'
 
 
 def finding_negative_width():
@@ -1512,7 +2035,7 @@ def finding_negative_width():
             'width': Fraction(30), 'lh': 'normal', 'indent': Fraction(40), 'all': 'start', 'last': 'auto',
             'rtl': False, 'ml': Fraction(0)}
     (_, text, block, canon, _), = render_paragraphs([spec])
-    return canon is not None and len(canon) == 1 and canon[0][4] != 'none' and dec(canon[0][4][0]) == 'aa b cc'
+    return isinstance(canon, list) and len(canon) == 1 and canon[0][4] != 'none' and dec(canon[0][4][0]) == 'aa b cc'
 
 
 def _inline_lines(width, body):
@@ -1549,6 +2072,60 @@ def finding_stale_width():
     (_, lines), = ic.laid_out_paragraphs(pages)
     span = lines[0].children[0]
     return Fraction(span.width) != sum(Fraction(c.margin_width()) for c in span.children)
+
+
+def finding_top_bottom():
+    """aa <span style="vertical-align:top"><b style="font-size:20px">dd</b></span>: the text 'dd' is placed above the
+    top of its line box."""
+    html = '<p style="font-size:10px;width:400px">aa <span style="vertical-align:top"><b style="font-size:20px">dd</b></span></p>'
+    for _, _, proto, impl in render_vertical_lines([html]):
+        parsed = sx.loads_line(proto)
+        v = vertical_violation(parsed[1], parsed[2], impl)
+        return bool(v) and v[1] == FINDING_TOP_BOTTOM
+    return False
+
+
+def corpus_body(name):
+    import json
+    from vlib import paths
+    return json.loads((paths.CORPUS / 'C09' / f'{name}.json').read_text())['body']
+
+
+def finding_float_indent():
+    """width 40px, a right float 14px wide and 40px high, text-indent -5px, 'aa bbb': the second line 'bbb' (30px) is
+    put in the 26px gap beside the float because its min-content width is taken as 30 - 5."""
+    html = corpus_body('float_gap_text_indent_later_lines')
+    spec = {'ws': 'normal', 'wb': 'normal', 'ow': 'normal', 'fs': Fraction(10), 'lh': ('px', Fraction(10)), 'indent': Fraction(-5),
+            'all': 'start', 'last': 'auto'}
+    rendered = render_float_doc(spec, html)
+    if rendered is None or rendered[3] is None:
+        return False
+    _, impl, shapes, geometry = rendered
+    v = float_violation(shapes, geometry, canon_from_wire(impl), 'normal', -5)
+    return bool(v) and v[1] == FINDING_FLOAT_INDENT and 'overlaps' in v[0]
+
+
+def finding_float_band():
+    """width 100px, font-size 10px, line-height 20px, text-align right, a right float 40x15px whose top is at y=12.5:
+    the first line 'aaa' is right-aligned in the whole 100px and lies over the float."""
+    html = corpus_body('float_align_width_not_of_line_box')
+    spec = {'ws': 'normal', 'wb': 'normal', 'ow': 'normal', 'fs': Fraction(10), 'lh': ('px', Fraction(20)),
+            'indent': Fraction(0), 'all': 'right', 'last': 'auto'}
+    rendered = render_float_doc(spec, html)
+    if rendered is None or rendered[3] is None:
+        return False
+    _, impl, shapes, geometry = rendered
+    v = float_violation(shapes, geometry, canon_from_wire(impl), 'normal', 0, ('right', 'auto'))
+    return bool(v) and v[1] == FINDING_FLOAT_BAND
+
+
+def finding_soft_hyphen():
+    """width 20px, font-size 10px, 'aaa bbb ccc&shy;ddd eee': the first line is 'aaa bbb ccc-' (120px) although it could
+    break after 'aaa'."""
+    _, pages = ic.pipeline(f'<style>{PAGE_CSS}</style>' + corpus_body('soft_hyphen_forces_overflowing_line'))
+    (block, lines), = ic.laid_out_paragraphs(pages)
+    first = ''.join(getattr(c, 'text', '') for c in lines[0].children)
+    return ' ' in first.strip() and Fraction(lines[0].width) > Fraction(block.width)
 
 
 def inline_replay(meta):
@@ -1629,7 +2206,11 @@ MANIFEST = {
                  'add_word_spacing / iter_line_boxes around an abstract fixed-pitch Pango; the white-space tuples, the '
                  'heuristic ratio, the Pango width limit, the 1+1e-9 fudge and the accepted keywords are regenerated '
                  'from the source each run; executable correspondence with the real functions (real Pango, test font) '
-                 'and with rendered paragraphs',
+                 'and with rendered paragraphs; round 2: hand models of the vertical placement inside a line '
+                 '(strut_layout, inline_box_verticality, translate_subtree), of the inline preferred widths '
+                 '(inline_line_widths and callers) and of get_next_linebox next to floats (on C11\'s avoid_collisions '
+                 'model), each with an exact correspondence section; branch histogram of split_first_line from an '
+                 'instrumented copy of the model (never-hit branches reported in the evidence)',
     'text': 'Proved for all inputs of the model: on canonical texts (words separated by single spaces) under a wrapping '
             'white-space with normal word-break / overflow-wrap, split_first_line returns exactly the first-fit line of '
             'the whole text (greedy), with or without its prefix heuristic (heuristic_transparent) — steps 1, 3 and 5 '
@@ -1652,7 +2233,14 @@ MANIFEST = {
             'white-space (never produced by white-space processing): witness in Witness/C09. Known findings on nested '
             'inline boxes: inline-start-spacing-overflow, inline-end-spacing-overflow, inline-end-spacing-reserved-early, '
             'inline-box-width-stale (the greedy / extents clauses are judged only in the sub-domain where the unchanged '
-            'code satisfies them). Not modelled: soft hyphens, bidi (rtl paragraphs only with normal '
-            'word-break/overflow-wrap, nested inline boxes only ltr), floats in lines, atomic inlines, vertical-align '
-            'other than baseline, first-letter, leaders.',
+            'code satisfies them). Round 2: vertical placement inside a line (strut, half-leading, every '
+            'vertical-align value, top / bottom subtrees) modelled exactly and proved to keep every box inside its line '
+            'when no top / bottom box is involved (finding vertical-align-top-bottom-subtree otherwise); preferred widths '
+            'of inline content modelled exactly, max-content of a canonical text proved and proved to fit on one line; '
+            'lines next to floats modelled on C11\'s avoid_collisions, the gap proved free of floats, lines proved '
+            'stacked downwards, termination, and proved equal to the plain paragraph when there is no float (finding '
+            'float-gap-text-indent-later-lines: the min-content width used to choose the gap counts text-indent on every '
+            'line). Soft hyphens are not modelled (finding soft-hyphen-forces-overflowing-line is replayed at document '
+            'level only). Not modelled: bidi (rtl paragraphs only with normal word-break/overflow-wrap, nested inline '
+            'boxes only ltr), floats inside lines, atomic inlines, first-letter, leaders.',
 }
